@@ -1,16 +1,19 @@
 """C17 - snapshot and restore reproduce the database exactly.
 Proof: coq/theories/Properties/C17.v (models Db/Content.v, Db/Timeline.v, Db/Snapshot.v, Db/RwLock.v,
-Db/Reader.v, Db/RestoreX.v, Db/RestoreJoin.v, Db/SnapPath.v).
+Db/Reader.v, Db/RestoreX.v, Db/RestoreJoin.v, Db/SnapPath.v, Db/RestoreMeta.v).
 Correspondence: histories (state A through real stores and raw writes; Snapshot / SnapshotInTx in a
 read or write transaction / StreamToWriter; snapshots through path templates - every placeholder,
 relative / absolute, existing files and directories at the target, the default path, the database
 opened elsewhere or relatively - read back from the path the call returned; arbitrary further operations; RestoreSnapshot and
 RestoreFromReader through readers of every behaviour the io.Reader contract allows - chunk sizes,
 zero-length reads, EOF with or after the last bytes, an error after k bytes, WriterTo / Seeker /
-file / buffered flavours; GetSnapshotId; GetTimelineId in every mode; restore listeners, also ones
+file / buffered flavours, and readers that CALL THE DATABASE from inside Read (GetSnapshotId,
+GetTimelineId, View, Stats, GetDefaultSnapshotPath while the snapshot streams to disk), the same
+calls after the restore; GetSnapshotId; GetTimelineId in every mode; restore listeners, also ones
 that use the database) executed on boltz.DbImpl and on the extracted model, full content compared
 after every operation, every restore under a watchdog; plus transactions racing restores in child
-processes with a watchdog (all-old-or-all-new, no error, no deadlock)."""
+processes with a watchdog (all-old-or-all-new, no error, no deadlock; metadata pollers: the old or
+the new snapshot id while a restore streams, the new one once it has returned)."""
 import json
 import os
 import resource
@@ -73,6 +76,14 @@ def split_ops(case):
             i += 1
         elif op == "restorer":
             i += 8 + int(t[i + 7])
+        elif op == "restorec":
+            i += 8 + int(t[i + 7])
+            ncb = int(t[i])
+            i += 1
+            for _ in range(ncb):
+                i = call_end(t, i + 1)
+        elif op == "call":
+            i = call_end(t, i)
         elif op in ("addlt", "addlw"):
             i += 1
         elif op == "tl":
@@ -82,6 +93,23 @@ def split_ops(case):
                 i += 1
         ops.append(t[s:i])
     return ops
+
+
+def call_end(t, i):
+    """index behind the metadata call that starts at t[i]: s | v | st | dp | t <mode> ok <hex> | t <mode> err"""
+    if t[i] != "t":
+        return i + 1
+    return i + 4 if t[i + 2] == "ok" else i + 3
+
+
+def parse_calls(toks):
+    """[<at> <call>]... -> list of (at, call tokens)"""
+    out, i = [], 0
+    while i < len(toks):
+        e = call_end(toks, i + 1)
+        out.append((int(toks[i]), toks[i + 1:e]))
+        i = e
+    return out
 
 
 def join_ops(ops):
@@ -187,8 +215,14 @@ def reader_script(op):
     """restorer <k> <flavour> <len> <eofd> <failAt|-> <failWd> <rest> <npre> <pre>... -> dict"""
     ln = int(op[3])
     fa = None if op[5] == "-" else int(op[5])
-    return dict(k=int(op[1]), flavour=op[2], len=ln, eof_with_data=op[4] == "1", fail_at=fa, failing=fa is not None and fa <= ln,
-                rest=int(op[7]), pre=[int(x) for x in op[9:]])
+    npre = int(op[8])
+    sc = dict(k=int(op[1]), flavour=op[2], len=ln, eof_with_data=op[4] == "1", fail_at=fa, failing=fa is not None and fa <= ln,
+              rest=int(op[7]), pre=[int(x) for x in op[9:9 + npre]], calls=[], made=[])
+    if op[0] == "restorec":
+        sc["calls"] = parse_calls(op[10 + npre:])
+        limit = fa if sc["failing"] else ln
+        sc["made"] = [c for at, c in sc["calls"] if at <= limit]      # calls placed behind the reader's end are never made
+    return sc
 
 
 # ----------------------------------------------------------------------------- the property's own oracle
@@ -211,7 +245,64 @@ def describe_reader(sc):
     what = {"r": "Read only", "w": "io.WriterTo", "s": "io.ReadSeeker", "u": "bufio.Reader", "f": "*os.File", "b": "*bytes.Reader"}.get(sc["flavour"], sc["flavour"])
     sizes = ("first reads %s, then " % sc["pre"] if sc["pre"] else "") + ("%d-byte reads" % sc["rest"] if sc["rest"] else "buffer-sized reads")
     end = ("error after %d bytes" % sc["fail_at"]) if sc["failing"] else ("io.EOF together with the last bytes" if sc["eof_with_data"] else "separate (0, io.EOF)")
-    return "%s, %d bytes, %s, %s" % (what, sc["len"], sizes, end)
+    calls = ""
+    if sc.get("calls"):
+        calls = "; from inside Read it calls " + ", ".join("%s after %d bytes" % (describe_call(c), at) for at, c in sc["calls"])
+    return "%s, %d bytes, %s, %s%s" % (what, sc["len"], sizes, end, calls)
+
+
+def describe_call(c):
+    if c[0] == "t":
+        mode = {"d": "default", "i": "initIfEmpty", "f": "forceReset"}.get(c[1], c[1])
+        return "GetTimelineId(%s, idF %s)" % (mode, "failing" if c[2] != "ok" else "-> %r" % unhex(c[3]))
+    return {"s": "GetSnapshotId", "v": "View(walk everything)", "st": "Stats", "dp": "GetDefaultSnapshotPath"}.get(c[0], c[0])
+
+
+def stored_snapshot_id(content):
+    """what GetSnapshotId has to answer on this content: 's:<hex>' / 's:nil'"""
+    v = content.get(SNAPID)
+    if content.get(META) != "B" or v is None or not v.startswith("=05"):
+        return "s:nil"
+    return "s:" + (v[3:] or "-")
+
+
+def dump_digest(raw):
+    """what a call that walks the whole database reports on this content (raw = text of L[...] / F[...])"""
+    ents = [] if raw in ("-", "", None) else raw.split(",")
+    return "v:%d:%08x" % (len(ents), fnv32(",".join(ents) if ents else "-"))
+
+
+def check_calls_during(sc, g, prev_raw, live_before, f, how):
+    """the calls a reader made while RestoreFromReader was streaming: each answer must be that of the
+    database before the restore or that of the restored file - never something else, never an error"""
+    cobs = bracket(g, "C")
+    cobs = [] if cobs in (None, "-", "") else cobs.split(",")
+    made = sc["made"]
+    if len(cobs) != len(made):
+        return None     # not what the property speaks about; left to the comparison with the model
+    wrote = False       # an earlier GetTimelineId of this reader may have changed the meta bucket
+    for c, o in zip(made, cobs):
+        what = describe_call(c)
+        if o.endswith(":err") or (c[0] == "t" and c[2] == "ok" and o.startswith("t:err")):
+            return ("C17:restore-tx-error", "%s called while %s was streaming the snapshot to disk failed (%s)" % (what, how, o))
+        if c[0] == "s":
+            old = stored_snapshot_id(live_before)
+            new = stored_snapshot_id(f["content"])
+            if o not in (old, new):
+                return ("C17:snapshot-id", "GetSnapshotId called while %s was streaming answered %s: neither the id before the restore (%s) nor the restored one (%s)"
+                        % (how, o, old, new))
+        elif c[0] == "v" and not wrote:
+            old, new = dump_digest(prev_raw), dump_digest(f["raw"])
+            if o not in (old, new):
+                return ("C17:restore-mixture", "a read transaction started while %s was streaming saw %s: neither the database before the restore (%s) nor the restored file (%s)"
+                        % (how, o, old, new))
+        elif c[0] == "st" and o != "st:1":
+            return ("C17:restore-tx-error", "Stats() around one read transaction while %s was streaming counted %s started transactions" % (how, o[3:]))
+        elif c[0] == "dp" and o != "dp:1":
+            return ("C17:restore-tx-error", "GetDefaultSnapshotPath() called while %s was streaming is not <path of the database>-<date>-<time>" % how)
+        elif c[0] == "t":
+            wrote = True
+    return None
 
 
 def oracle(case, impl):
@@ -227,8 +318,11 @@ def oracle(case, impl):
     lkinds = []         # kinds of the registered restore listeners: c count, v view, s snapshot id, t timeline id, w write
     fired = 0
     pending = None      # after a restore of a snapshot: what the timeline requests must do
+    after_restore = ""  # how that restore was made
+    raws = [bracket(g, "L") or "-" for g in groups]
     for i, (op, g) in enumerate(zip(ops, groups)):
         live = parse_dump(bracket(g, "L") or "-")
+        prev_raw = raws[i - 1] if i > 0 else "-"
         head = g.split(" L[")[0].split()
         kind = op[0]
         if kind == "snapp":
@@ -283,9 +377,9 @@ def oracle(case, impl):
             files.append(dict(kind="stream", id=None, at=live_before, op=i, content=f, raw=bracket(g, "F")))
             if head[0] != "stream" or f != live_before:
                 return ("C17:stream-content", "streamed copy differs from the committed content", i)
-        elif kind in ("restore", "restorer"):
+        elif kind in ("restore", "restorer", "restorec"):
             k = int(op[1])
-            sc = reader_script(op) if kind == "restorer" else None
+            sc = reader_script(op) if kind != "restore" else None
             how = "RestoreSnapshot" if sc is None else "RestoreFromReader(%s)" % describe_reader(sc)
             if len(head) > 1 and head[1] == "hang":
                 return ("C17:restore-hangs", "%s did not return within the watchdog's time with %d restore listeners registered (%s): "
@@ -300,15 +394,26 @@ def oracle(case, impl):
                     if head[:2] != ["restore", "refused"]:
                         return ("C17:restore-reader-error", "the reader failed after %d of %d bytes but the restore did not fail: %s"
                                 % (sc["fail_at"], sc["len"], " ".join(head)[:160]), i)
-                    if live != live_before:
+                    # (a GetTimelineId the reader made before it failed may have written the timeline keys)
+                    wrote = any(c[0] == "t" for c in sc["made"])
+                    if (strip_touched(live) != strip_touched(live_before)) if wrote else (live != live_before):
                         return ("C17:restore-reader-error", "a restore that failed (reader error after %d of %d bytes) changed the database"
                                 % (sc["fail_at"], sc["len"]), i)
                     if int(head[2].split("=")[1]) != fired:
                         return ("C17:restore-reader-error", "a restore that failed started restore listeners", i)
+                    bad = check_calls_during(sc, g, prev_raw, live_before, f, how)
+                    if bad:
+                        return bad + (i,)
+                    if wrote:
+                        pending = None
                     live_before = live
                     continue
                 if head[0] != "restore" or len(head) < 2 or not head[1].startswith("fired="):
                     return ("C17:restore-failed", "%s failed: %s" % (how, show_head(head)[:300]), i)
+                if sc is not None and sc["made"]:
+                    bad = check_calls_during(sc, g, prev_raw, live_before, f, how)
+                    if bad:
+                        return bad + (i,)
                 writers = [x for x in lkinds if x in ("t", "w")]
                 want, got = strip_markers(f["at"]), strip_markers(live)
                 if writers:
@@ -330,18 +435,35 @@ def oracle(case, impl):
                         if so == "-" or so.endswith(":err"):
                             return ("C17:restore-listener-error", "restore listener %d (%s) failed to use the database after the restore: %s" % (n, lk, so), i)
                         if lk == "s" and f["kind"] == "snap" and so != "s:" + f["id"]:
-                            return ("C17:snapshot-id", "a restore listener asking GetSnapshotId got %s, the snapshot call returned %s" % (so, f["id"]), i)
+                            return ("C17:snapshot-id", "a restore listener asking GetSnapshotId after %s got %s, the snapshot call returned %s" % (how, so, f["id"]), i)
                         if lk == "v" and so != view_digest(f["raw"]):
                             return ("C17:restore-listener-view", "a restore listener reading the database saw %s, the restored file holds %s" % (so, view_digest(f["raw"])), i)
                         if lk == "t" and f["kind"] == "snap" and so != "t:" + LT:
                             return ("C17:timeline-fresh-once", "a restore listener's GetTimelineId after the restore returned %s instead of the fresh id" % so, i)
                 pending = dict(stage=0, id=f["id"], tl_ok="t" not in lkinds) if f["kind"] == "snap" else None
+                after_restore = how
             else:
                 pending = None
         elif kind == "snapid":
             if pending is not None and pending["stage"] == 0:
                 if head != ["snapid", pending["id"]]:
-                    return ("C17:snapshot-id", "GetSnapshotId after the restore reports %s, the snapshot call returned %s" % (" ".join(head[1:]), pending["id"]), i)
+                    return ("C17:snapshot-id", "GetSnapshotId after the restore (%s) reports %s, the snapshot call returned %s"
+                            % (after_restore, " ".join(head[1:]), pending["id"]), i)
+        elif kind == "call":
+            # the metadata calls as operations of their own: after a restore they speak about the restored database
+            if op[1] == "t":
+                pending = None      # (not generated; the timeline oracle follows the tl operations)
+            elif pending is not None:
+                if op[1] == "s" and pending["stage"] == 0 and head[0] != "s:" + pending["id"]:
+                    return ("C17:snapshot-id", "GetSnapshotId after the restore (%s) reports %s, the snapshot call returned %s"
+                            % (after_restore, head[0], pending["id"]), i)
+                if head[0].endswith(":err"):
+                    return ("C17:restore-tx-error", "%s after the restore (%s) failed" % (describe_call(op[1:]), after_restore), i)
+                if op[1] == "st" and head[0] != "st:1":
+                    return ("C17:restore-metadata", "after the restore (%s) Stats() around one read transaction counted %s started transactions: "
+                            "it does not describe the reopened database" % (after_restore, head[0][3:]), i)
+                if op[1] == "dp" and head[0] != "dp:1":
+                    return ("C17:restore-metadata", "after the restore (%s) GetDefaultSnapshotPath() is not <path of the database>-<date>-<time>" % after_restore, i)
         elif kind == "tl":
             called = "called=1" in head
             res = head[1]
@@ -440,7 +562,7 @@ def without_op(ops, i):
     for j, o in enumerate(ops):
         if j == i:
             continue
-        if o[0] in ("restore", "restorer"):
+        if o[0] in ("restore", "restorer", "restorec"):
             k = int(o[1])
             if k == f:
                 return None
@@ -469,14 +591,28 @@ def simpler_readers(op):
             yield op[:9] + ["-"] + op[10:]
         if op[10] != "plain":
             yield op[:10] + ["plain"]
-    if op[0] != "restorer":
+    if op[0] not in ("restorer", "restorec"):
         return
     yield ["restore", op[1]]
     sc = reader_script(op)
+    npre = int(op[8])
+    tail = op[9 + npre:]        # restorec: the calls
+    if op[0] == "restorec":
+        yield ["restorer"] + op[1:9 + npre]
+        calls = sc["calls"]
+        for j in range(len(calls)):      # one call less
+            rest = calls[:j] + calls[j + 1:]
+            yield op[:9 + npre] + [str(len(rest))] + [t for at, c in rest for t in [str(at)] + c]
+        for j, (at, c) in enumerate(calls):      # the call right at the first read
+            if at != 0 and all(a == 0 for a, _ in calls[:j]):
+                moved = calls[:j] + [(0, c)] + calls[j + 1:]
+                yield op[:9 + npre] + [str(len(moved))] + [t for a, cc in moved for t in [str(a)] + cc]
     if sc["pre"]:
-        yield op[:8] + ["0"]
+        yield op[:8] + ["0"] + tail
     if op[2] != "r":
         yield op[:2] + ["r"] + op[3:]
+    if op[4] != "0":
+        yield op[:4] + ["0"] + op[5:]
     if op[7] not in ("0", op[3]):
         yield op[:7] + ["0"] + op[8:]
         yield op[:7] + [op[3]] + op[8:]
@@ -499,18 +635,22 @@ def shrink(c, harness, case, key, budget=40):
     ops = attempt(split_ops(case))
     if ops is None:
         return case
-    i = 0
-    while i < len(ops) - 1 and budget > 0:
-        cand = without_op(ops, i)
-        if cand is None:
-            i += 1
-            continue
-        budget -= 1
-        r = attempt(cand)
-        if r is not None:
-            ops = r
-        else:
-            i += 1
+    for _ in range(2):      # a second pass: a snapshot becomes droppable once the restores of its file are gone
+        i, before = 0, len(ops)
+        while i < len(ops) - 1 and budget > 0:
+            cand = without_op(ops, i)
+            if cand is None:
+                i += 1
+                continue
+            budget -= 1
+            r = attempt(cand)
+            if r is not None:
+                ops = r
+            else:
+                i += 1
+        if len(ops) == before:
+            break
+        budget = max(budget, 8)
     budget = max(budget, 15)     # the simplification of single operations has a share of its own
     for i in range(len(ops)):
         progress = True
@@ -553,6 +693,10 @@ def classify_race(c, case, impl, where=""):
         c.violation(key, "transactions racing restores stopped making progress%s (%s)" % (where, detail or "mode %s: child timed out" % mode), rp)
     elif f[1] == "mixture":
         c.violation("C17:restore-mixture", "a transaction racing RestoreSnapshot saw a mixture of databases%s: %s" % (where, detail), rp)
+    elif f[1] == "snapid":
+        c.violation("C17:snapshot-id", "metadata pollers racing RestoreFromReader%s: %s" % (where, detail.replace("snapid ", "", 1)), rp)
+    elif f[1] == "timeline":
+        c.violation("C17:timeline-fresh-once", "metadata pollers racing RestoreFromReader%s: %s" % (where, detail.replace("timeline ", "", 1)), rp)
     elif f[1] == "error":
         c.violation("C17:restore-tx-error", "a transaction racing RestoreSnapshot failed%s: %s" % (where, detail), rp)
     elif f[1] == "datarace":
@@ -570,16 +714,19 @@ def main(argv):
         "Db/Reader.v: the io.Reader contract as scripts (chunk sizes, zero-length reads, EOF with/after data, failure position) and io.Copy's loop; Db/RestoreX.v: RestoreFromReader + database-using listeners on top of Db/Snapshot.v; the bytes of a file are abstract (positions), bbolt's file format is not modelled",
         "Db/RestoreJoin.v: listeners as transaction threads gated by the reopen, on top of Db/RwLock.v",
         "Db/SnapPath.v: strings.ReplaceAll and the eight placeholder replacements of SnapshotInTx transcribed over byte strings; the file system as a map from names to snapshot files; the expansion's environment (date, time, filepath.Dir/Base of the database path) is taken from the harness as observed",
+        "Db/RestoreMeta.v: metadata calls (GetSnapshotId, GetTimelineId, View, Stats, GetDefaultSnapshotPath) made from inside the reader of RestoreFromReader = calls on the database before the restore (persistSnapshot precedes the lock); racing calls = calls before / after the atomic swap; Stats and GetDefaultSnapshotPath have no state in the model (observations: a read transaction moves Stats().TxN by one; the path is <database path>-<date>-<time>)",
         "Db/RwLock.v: sync.RWMutex modelled by its specification (readers exclude the writer; optional writer preference)",
         "NOT modelled, exercised only: os.Rename, bbolt Open/Close/CopyFile/WriteTo, sync.RWMutex, goroutine scheduling (all schedules are quantified over on the model only)",
         "uuid.NewString freshness (model: a counter)",
         "extraction (ExtrOcamlBasic only) + extraction/c17_driver.ml + drv_common.ml",
-        "Go harness cmd/storageharness/c17.go, c17_stores.go, c17_readers.go, c17_paths.go (generators, scripted readers, listeners, watchdog, bbolt walk, diff of store transactions into raw writes) and this comparison",
+        "Go harness cmd/storageharness/c17.go, c17_stores.go, c17_readers.go, c17_paths.go, c17_meta.go (generators, scripted readers, listeners, watchdog, bbolt walk, diff of store transactions into raw writes) and this comparison",
     ]
     c.assumptions = [
         "meta/snapshotId, meta/timelineId hold strings or nil, meta/resetTimeline a bool or nil (what the library and the generated transactions write)",
         "transactions obtain their bbolt transaction through Db.View/Update/Batch (so they hold the read lock)",
         "one restore at a time in the racing runs (the model covers any number of restorers)",
+        "metadata calls made while a restore streams come from the reader itself (same goroutine, deterministic) or from pollers that go through the reload lock (GetSnapshotId, GetTimelineId, Stats); GetDefaultSnapshotPath reads the handle without the lock and is therefore only called from the reader, not by racing pollers",
+        "a bolt file holds keys inside buckets only (meta_wf: no meta/snapshotId without the meta bucket) - hypothesis of metadata_read_during_restore_old_or_new",
         "restore listeners that write do so outside the snapshot markers (own keys of a bucket lsn, GetTimelineId): the content oracle ignores exactly those paths when such listeners are registered",
         "snapshot paths stay inside the history's own directory and never name the database file itself (Snapshot onto the open database file truncates it - outside the property)",
         "a restore (copy of <= a few hundred KB, close, two renames, open) and its listeners finish within the watchdog's 3 s unless something blocks them",
@@ -618,7 +765,7 @@ def main(argv):
         ops = split_ops(case)
         nops += len(ops)
         kinds = [o[0] for o in ops]
-        if ("restore" in kinds or "restorer" in kinds) and ("snap" in kinds or "snapp" in kinds):
+        if ("restore" in kinds or "restorer" in kinds or "restorec" in kinds) and ("snap" in kinds or "snapp" in kinds):
             distinct.add(case)
         v = oracle(case, i)
         if v:
@@ -671,8 +818,13 @@ def main(argv):
     c.cov["rule"] = ("evaluations = operations executed on both sides (full content compared after each) + racing runs. "
                      "Non-trivial = distinct histories that contain a snapshot and a restore (RestoreSnapshot or RestoreFromReader), + distinct racing modes "
                      "(plain Update/View, Batch, Db.Snapshot, RootBucket in a transaction, SnapshotInTx in a write transaction, "
-                     "nested Db.Update/Batch joining the context's transaction, database-using restore listeners + chunked readers)")
-    rd = [o for x in cases if x.startswith("H") for o in split_ops(x) if o[0] == "restorer"]
+                     "nested Db.Update/Batch joining the context's transaction, database-using restore listeners + chunked readers, "
+                     "metadata pollers - GetSnapshotId / GetTimelineId / Stats - against restores through slow readers)")
+    rd = [o for x in cases if x.startswith("H") for o in split_ops(x) if o[0] in ("restorer", "restorec")]
+    rc = [reader_script(o) for o in rd if o[0] == "restorec"]
+    c.cov["reader_restores_calling_the_database"] = len(rc)
+    c.cov["calls_made_while_streaming"] = sum(len(x["made"]) for x in rc)
+    c.cov["calls_made_while_streaming_by_kind"] = dict((k, sum(1 for x in rc for cc in x["made"] if cc[0] == k)) for k in ("s", "t", "v", "st", "dp"))
     ps = [o for x in cases if x.startswith("H") for o in split_ops(x) if o[0] == "snapp"]
     c.cov["path_snapshots"] = len(ps)
     c.cov["path_templates_distinct"] = len(set((o[1], unhex(o[2]).replace(unhex(o[3]), "<root>")) for o in ps))
